@@ -141,6 +141,22 @@ def handlePanic (l : Line) : IO Unit := do
     IO.println s!"obs {id} no-panic-in-model"
   IO.println s!"spec {id} {Spec.MathSpec.judgePanic kind a (bitsList (l.getD "v1")) (bitsList (l.getD "v2"))}"
 
+/-- aliasing family: samples that are windows of one backing array. The property's functions must
+not modify their inputs and must depend on the values only. -/
+def handleAlias (l : Line) : IO Unit := do
+  let id := l.id
+  let split (k : String) : List String := if l.getD k == "" then [] else (l.getD k).splitOn ","
+  let wins := split "win"
+  IO.println s!"obs {id} windows={wins.length} ops={(split "ops").length}"
+  let vals (w : String) : List F64.Bits := if w == "-" then [] else (w.splitOn "+").filterMap bits?
+  -- (a) every window still holds the values it was created with, in `NewSample`'s order
+  let intact := ((split "before").zip (split "after")).all fun (b, a) =>
+    (sortVals (vals b)).map F64.toHex == (vals a).map F64.toHex
+  -- (b) every result equals the result of the same call on freshly copied samples
+  let bad := (((split "ops").zip ((split "ra").zip (split "rf"))).filter fun (_, (x, y)) => x != y).map (·.1)
+  let same := if bad.isEmpty then "ok" else "differs-from-fresh-copies:" ++ "+".intercalate (bad.take 3)
+  IO.println s!"spec {id} intact={if intact then "ok" else "input-modified"} same={same}"
+
 def handle (l : Line) : IO Unit := do
   if l.kind != "case" then return
   if l.getD "panic" == "1" then
@@ -151,6 +167,7 @@ def handle (l : Line) : IO Unit := do
   | "cmp" => handleCmp l
   | "fd" => handleFd l
   | "pr" => handlePr l
+  | "alias" => handleAlias l
   | "tab" =>
     IO.println s!"obs {l.id} minp={showList Nothing.uTestMinP}"
     IO.println s!"spec {l.id} minp={Spec.MathSpec.judgeMinP (bitsList (l.getD "itab"))}"
